@@ -93,6 +93,8 @@ pub struct RunStats {
     pub interpolations: u64,
     /// a name was referenced while bound in >= 2 simultaneously live scopes
     pub shadowed_reference: u64,
+    /// `g[i].push(..)`-style mutation while `g` was bound in >= 2 simultaneously live scopes
+    pub shadowed_path_mutation: u64,
     /// a variable of an enclosing function activation was read / written from a nested function
     pub capture_reads: u64,
     pub capture_writes: u64,
@@ -783,6 +785,12 @@ impl<'p> Interp<'p> {
             }
             self.stats.array_ops += 1;
             self.stats.array_mutations += 1;
+            if !idx_exprs.is_empty()
+                && let Expr::Var(bn) = base
+                && self.bound_names.iter().any(|(n, c)| n == bn && *c >= 2)
+            {
+                self.stats.shadowed_path_mutation += 1;
+            }
             let name_owned = name.to_string();
             return self.mutate_path(base, &idx_vals, env, move |slot| {
                 let RVal::Arr(items) = slot else {
